@@ -1,7 +1,8 @@
 #!/usr/bin/env python3
 """Apply a patch to /repo, run the quick checks of all (or given) properties, undo the patch. Prints which checks fire.
 usage: tools/run_seed.py <patch.diff> [C03 C07 ...]"""
-import json, subprocess, sys, os
+import json, subprocess, sys, os, signal
+signal.signal(signal.SIGPIPE, signal.SIG_IGN)
 patch = os.path.abspath(sys.argv[1])
 props = sys.argv[2:] or [c["property_id"] for c in json.load(open("/verif/MANIFEST.json"))["checks"]]
 import fcntl
@@ -10,7 +11,7 @@ fcntl.flock(_lock, fcntl.LOCK_EX)          # one patch on /repo at a time
 st = subprocess.run(["git", "-C", "/repo", "status", "--porcelain"], capture_output=True, text=True).stdout.strip()
 if st:
     sys.exit("refusing: /repo is dirty:\n" + st)
-subprocess.check_call(["git", "-C", "/repo", "apply", patch])
+subprocess.run(["git", "-C", "/repo", "apply", patch], check=True, stdout=subprocess.DEVNULL, stderr=subprocess.DEVNULL)
 res = {}
 try:
     for p in props:
@@ -18,7 +19,7 @@ try:
         lines = [l for l in r.stdout.splitlines() if l.startswith(p + " ") or l.startswith("INCONCLUSIVE") or l.startswith("ANALYSIS-ERROR")]
         res[p] = (r.returncode, lines)
 finally:
-    subprocess.check_call(["git", "-C", "/repo", "checkout", "--", "."])
+    subprocess.run(["git", "-C", "/repo", "checkout", "-q", "--", "."], check=True, stdout=subprocess.DEVNULL, stderr=subprocess.DEVNULL)
 fired = [p for p, (rc, _) in res.items() if rc == 1]
 err = [p for p, (rc, _) in res.items() if rc == 2]
 print("FIRED:", " ".join(fired) or "-", "| ANALYSIS-ERROR:", " ".join(err) or "-")
